@@ -26,7 +26,9 @@ def main():
         if want and sid not in want:
             continue
         m = json.load(open(os.path.join(sd, sid, 'meta.json')))
-        props = m.get('expected_checks') or [m['property']]
+        props = m['expected_checks'] if 'expected_checks' in m else [m['property']]
+        if not props:
+            continue
         sh('git', '-C', '/repo', 'worktree', 'remove', '--force', wt)
         shutil.rmtree(wt, ignore_errors=True)
         assert sh('git', '-C', '/repo', 'worktree', 'add', '--detach', wt, 'HEAD').returncode == 0
